@@ -1,10 +1,32 @@
 package c03lib
 
+// C03: generated struct codecs round-trip and match the IDL schema encoding.
+//
+// For every struct S (the 24 structs of tars/protocol/res and every struct of
+// the verif/gen corpus compiled by the working-tree tars2go) and every value v
+// of the bounded enumeration (plan / runUnit below), checkValue demands:
+//
+//	(1) WriteTo(v) decoded by ReadFrom into a FRESH struct gives v back (nil ≡
+//	    empty containers; floats by bit pattern, except that an optional
+//	    float member may come back as +0 for -0); the same through WriteBlock /
+//	    ReadBlock at tags 0 and 15
+//	(2) the strict reference decoder (verif/ref) accepts the bytes under the
+//	    schema and yields v
+//	(3) wire conformance: tags ascending and unique (strict parser), no tag
+//	    outside the schema, every member under an admissible wire type
+//	    (DESIGN Appendix B), required members present, integers and embedded
+//	    lengths in their narrowest width
+//
+// Not demanded: which optional members are elided, byte equality with the
+// reference encoder.  Panics of the code under test are violations
+// (panic:encode|decode:<class>:<struct class>).
+
 import (
 	"encoding/hex"
 	"fmt"
 	"hash/maphash"
 	"os"
+	"reflect"
 	"sort"
 	"sync"
 	"time"
@@ -363,7 +385,7 @@ func (c *c03) checkValue(s *Subject, v *ref.Value, block bool, st *stats) []byte
 	st.n["impl_calls"]++
 	mk := mkCase("WriteTo/ReadFrom", body)
 	size := len(body) + 8*len(s.Def.Members)
-	rep := func(sig, detail string) { st.report(sig, size, func() (string, Case) { return mk(detail) }) }
+	rep := func(sig, detail string) { st.report(sig, s.Name, size, func() (string, Case) { return mk(detail) }) }
 	switch {
 	case pan != "":
 		rep("panic:encode:"+panicClass(pan)+":"+subjClass(s), "WriteTo panicked: "+pan)
@@ -382,6 +404,29 @@ func (c *c03) checkValue(s *Subject, v *ref.Value, block bool, st *stats) []byte
 	if !block {
 		return body
 	}
+	// ---- the same value with nil instead of empty containers (ToGo builds
+	// empty non-nil slices and maps): nil and empty are one value
+	if gn, _ := newFrom(s, v); gn != nil && nilEmpties(goVal(gn)) {
+		st.n["nil_container_cases"]++
+		nb, werr, pan := implWriteTo(gn)
+		st.n["impl_calls"]++
+		mkn := mkCase("WriteTo/ReadFrom with nil containers", nb)
+		repn := func(sig, detail string) {
+			st.report(sig+":nil-container", s.Name, size, func() (string, Case) { return mkn(detail) })
+		}
+		switch {
+		case pan != "":
+			repn("panic:encode:"+panicClass(pan)+":"+subjClass(s), "WriteTo panicked: "+pan)
+		case werr != nil:
+			repn("encode-error:"+subjClass(s), "WriteTo returned "+werr.Error())
+		default:
+			c.judgeBytes(s, s.Def, v, nb, func(x *ref.Value) *ref.Value { return x }, repn, st)
+			g4 := s.New()
+			rerr, pan := guard(func() error { return g4.ReadFrom(codec.NewReader(nb)) })
+			st.n["impl_calls"]++
+			c.judgeDecoded(s, v, g4, rerr, pan, "ReadFrom", repn, st)
+		}
+	}
 	for _, tag := range c.blockTags {
 		st.n["block_cases"]++
 		bb, werr, pan := implWriteBlock(g, tag)
@@ -389,7 +434,7 @@ func (c *c03) checkValue(s *Subject, v *ref.Value, block bool, st *stats) []byte
 		mode := fmt.Sprintf("WriteBlock/ReadBlock(tag %d)", tag)
 		mkb := mkCase(mode, bb)
 		repb := func(sig, detail string) {
-			st.report(sig, size+4, func() (string, Case) { return mkb(detail) })
+			st.report(sig, s.Name, size+4, func() (string, Case) { return mkb(detail) })
 		}
 		switch {
 		case pan != "":
@@ -413,6 +458,43 @@ func (c *c03) checkValue(s *Subject, v *ref.Value, block bool, st *stats) []byte
 		}
 	}
 	return body
+}
+
+// nilEmpties replaces every empty slice and map inside rv (struct members,
+// array elements, nested structs; not inside map values, which are not
+// addressable) by nil and reports whether anything changed.
+func nilEmpties(rv reflect.Value) bool {
+	changed := false
+	switch rv.Kind() {
+	case reflect.Struct:
+		for i := 0; i < rv.NumField(); i++ {
+			if nilEmpties(rv.Field(i)) {
+				changed = true
+			}
+		}
+	case reflect.Array:
+		for i := 0; i < rv.Len(); i++ {
+			if nilEmpties(rv.Index(i)) {
+				changed = true
+			}
+		}
+	case reflect.Slice:
+		if !rv.IsNil() && rv.Len() == 0 && rv.CanSet() {
+			rv.Set(reflect.Zero(rv.Type()))
+			return true
+		}
+		for i := 0; i < rv.Len(); i++ {
+			if nilEmpties(rv.Index(i)) {
+				changed = true
+			}
+		}
+	case reflect.Map:
+		if !rv.IsNil() && rv.Len() == 0 && rv.CanSet() {
+			rv.Set(reflect.Zero(rv.Type()))
+			return true
+		}
+	}
+	return changed
 }
 
 // judgeBytes: rules (2) and (3): the bytes are a well-formed encoding under
@@ -681,6 +763,7 @@ func mainC03(reg Registry) {
 		c.replay(run, subjects)
 		return
 	}
+	hollowCorpus(run, subjects, corpus)
 	start := time.Now()
 	deadline := start.Add(150 * time.Second)
 	kmax, budget := 2, 150e3
@@ -697,7 +780,7 @@ func mainC03(reg Registry) {
 	sort.Strings(names)
 	for _, k := range names {
 		k := k
-		total.report("go-type-mismatch", len(k), func() (string, Case) {
+		total.report("go-type-mismatch", k, len(k), func() (string, Case) {
 			return fmt.Sprintf("%s: the generated Go type does not fit the schema: %s", k, mismatches[k]),
 				Case{Thorough: c.thorough, Check: "C03", Subject: k, Kind: "gotype", Detail: mismatches[k]}
 		})
@@ -756,7 +839,7 @@ func mainC03(reg Registry) {
 		"states":                        nc["cases"],
 		"transitions":                   nc["impl_calls"],
 		"traces_validated_against_impl": nc["cases"],
-		"evaluations":                   nc["cases"] + nc["block_cases"],
+		"evaluations":                   nc["cases"] + nc["block_cases"] + nc["nil_container_cases"],
 		"distinct_nontrivial":           nc["distinct_values"],
 		"programs":                      len(subjects),
 		"structs_res":                   nres,
@@ -766,11 +849,13 @@ func mainC03(reg Registry) {
 		"cases_by_origin":               perOrigin,
 		"cases_by_deviation":            map[string]uint64{"0": nc["cases_dev0"], "1": nc["cases_dev1"], "2": nc["cases_dev2"], "3": nc["cases_dev3"], "1_full_lattice": nc["cases_full_lattice"]},
 		"block_cases":                   nc["block_cases"],
+		"nil_container_cases":           nc["nil_container_cases"],
 		"reference_decodes":             nc["ref_decodes"],
 		"implementation_calls":          nc["impl_calls"],
 		"units":                         len(units),
 		"structs_by_deviation_bound":    kBy,
 		"violating_cases_by_signature":  bySig,
+		"structs_affected_by_signature": affected(total, subjects),
 		"corpus_declarations_excluded":  excluded,
 		"bootstrap":                     bootFacts(),
 		"enumeration_s":                 time.Since(start).Seconds(),
@@ -788,7 +873,7 @@ func mainC03(reg Registry) {
 			"corpus":                 "verif/gen corpus of the tier (struct files only), compiled by the working-tree tars2go",
 			"largest_value_in_bytes": 70000,
 		},
-		"rule": "cases = (struct, value); values of a struct = both baselines, every replacement of at most k members by a small-lattice value (WriteTo+WriteBlock at tags 0 and 15), and every replacement of one member by a Full-lattice value not already in the small lattice (WriteTo only); from the all-non-default baseline, products replacing every member are skipped because the all-default baseline reaches them; " +
+		"rule": "cases = (struct, value); values of a struct = both baselines, every replacement of at most k members by a small-lattice value (WriteTo, WriteBlock at tags 0 and 15, and WriteTo again with nil in place of every empty slice/map), and every replacement of one member by a Full-lattice value not already in the small lattice (WriteTo only); from the all-non-default baseline, products replacing every member are skipped because the all-default baseline reaches them; " +
 			"each case: ToGo -> WriteTo -> strict reference parse + schema walk + reference decode + ReadFrom into a fresh struct (and the same through WriteBlock/ReadBlock); distinct_nontrivial counts distinct values per unit (hash of the reference encoding with explicit defaults and sorted maps); per signature the smallest case is kept; units are independent and merged in a fixed order",
 	}
 	run.Finish(cov, []string{
